@@ -2,6 +2,7 @@ import TapkeeVerif.Model.Mat
 import TapkeeVerif.Model.MatExtra
 import TapkeeVerif.Model.FixPoint
 import TapkeeVerif.Model.Util
+import TapkeeVerif.Model.Cert
 /-
 Exact certificate checks used by the C08–C10 drivers (core Lean only; DESIGN §3).
 
@@ -135,23 +136,51 @@ def negCount (n : Nat) (a : Array (Array Fix)) : Option Nat :=
     if j.1 ≤ i.1 then (a[i.1]!)[j.1]! else (a[j.1]!)[i.1]!
   negCountInt n (toIntMat sym)
 
-/-- #{generalised eigenvalues of (A, B) below σ} = negCount (A − σ B); `B = none` means the identity.
-    If a minor vanishes the shift is moved by `nudge` (at most 3 times). -/
-def countBelow (n : Nat) (a : Array (Array Fix)) (b : Option (Array (Array Fix))) (σ nudge : Fix) : Option Nat :=
-  let shifted (s : Fix) : Array (Array Fix) := Array.ofFn fun i : Fin n => Array.ofFn fun j : Fin n =>
+/-- **The inertia count used by every spectral verdict** — the exact LDLᵀ elimination of `Model/Cert.lean`
+    (`Cert.inertiaPos`, sound by `Proofs/Inertia.inertiaPos_sound`) run at `K := Rat` on `S = σ·B − A`:
+    `some p` ⇒ `S` is positive definite on no family of more than `p` independent directions, i.e. the pencil `(A, B)`
+    has at most `p` eigenvalues below `σ` (`Proofs/CertGenSound.lean`: `belowCount_sound`, `belowCount_bounds_eigenvalues`).
+    `none`: the elimination did not close (zero pivot) — the caller moves the shift. -/
+def belowCount {n : Nat} (S : Mat n n Rat) : Option Nat := Cert.inertiaPos S 0
+
+/-- `σ·B − A` as an exact rational matrix: entries rounded to 64 significant bits of the largest one, lower triangle
+    mirrored (scaling by a power of two changes no sign) -/
+def pencilRat (n : Nat) (a : Array (Array Fix)) (b : Option (Array (Array Fix))) (σ : Fix) : DMat n n Rat :=
+  let S : Array (Array Fix) := Array.ofFn fun i : Fin n => Array.ofFn fun j : Fin n =>
+    let (r, c) := if j.1 ≤ i.1 then (i.1, j.1) else (j.1, i.1)
     let bij : Fix := match b with
-      | none => if i.1 = j.1 then 1 else 0
-      | some b => (b[i.1]!)[j.1]!
-    (a[i.1]!)[j.1]! - s * bij
+      | none => if r = c then 1 else 0
+      | some b => (b[r]!)[c]!
+    σ * bij - (a[r]!)[c]!
+  let I := toIntMat S
+  DMat.ofFn fun i j => (((I[i.1]!)[j.1]! : Int) : Rat)
+
+/-- #{generalised eigenvalues of (A, B) below σ} ≤ the returned count (`B = none`: identity).  If the elimination does
+    not close the shift is moved by `nudge` (at most 3 times). -/
+def countBelow (n : Nat) (a : Array (Array Fix)) (b : Option (Array (Array Fix))) (σ nudge : Fix) : Option Nat :=
+  let at_ (s : Fix) : Option Nat := belowCount (pencilRat n a b s).get
+  match at_ σ with
+  | some c => some c
+  | none =>
+    match at_ (σ + nudge) with
+    | some c => some c
+    | none =>
+      match at_ (σ - nudge) with
+      | some c => some c
+      | none => at_ (σ + nudge + nudge + nudge)
+
+/-- fast variant for the per-sample ORACLE-CONTRACT checks on large neighbourhoods only (not used by any verdict about
+    the property): sign changes of the leading principal minors by integer Bareiss elimination (Jacobi's rule, no Lean
+    soundness theorem) — the exact rational LDLᵀ costs ~0.4 s per 39×39 matrix, times N samples -/
+def countBelowFast (n : Nat) (a : Array (Array Fix)) (σ nudge : Fix) : Option Nat :=
+  let shifted (s : Fix) : Array (Array Fix) := Array.ofFn fun i : Fin n => Array.ofFn fun j : Fin n =>
+    (a[i.1]!)[j.1]! - (if i.1 = j.1 then s else 0)
   match negCount n (shifted σ) with
   | some c => some c
   | none =>
     match negCount n (shifted (σ + nudge)) with
     | some c => some c
-    | none =>
-      match negCount n (shifted (σ - nudge)) with
-      | some c => some c
-      | none => negCount n (shifted (σ + nudge + nudge + nudge))
+    | none => negCount n (shifted (σ - nudge))
 
 /-! ### small dense helpers on arrays -/
 
